@@ -318,7 +318,7 @@ def run(ctx):
         enum_doc(FILTER % '<feFlood flood-color="red" flood-opacity="0.5" result="a"/><feOffset in="SourceGraphic" dx="5" result="b"/>'
                  '<feDiffuseLighting in="a" lighting-color="white"><feDistantLight azimuth="45" elevation="30"/></feDiffuseLighting>'),
     ]
-    extra += refgen.crafted_docs()
+    extra += refgen.crafted_docs() + refgen.group_attr_docs() + [d for d, _ in refgen.size_docs()]
     docs = ['@' + f for f in wit] + extra + ['@' + f for f in corpus] + gen_docs
     labels = [os.path.relpath(f, vlib.VERIF) for f in wit] + ['extra#%d' % i for i in range(len(extra))] + \
              [os.path.relpath(f, vlib.CORPUS) for f in corpus] + ['generated#%d' % i for i in range(ngen)]
